@@ -452,7 +452,22 @@ public:
 
   /* Operations needed if used as value in a patricia tree */
   bool operator==(const offset_map_t &o) const {
-    return *this <= o && o <= *this;
+    if (!(*this <= o && o <= *this)) {
+      return false;
+    }
+    // a cell marked as removed is not the same as a live cell (the
+    // order between cells ignores the mark)
+    std::vector<cell_t> cells = get_all_cells();
+    std::vector<cell_t> o_cells = o.get_all_cells();
+    if (cells.size() != o_cells.size()) {
+      return false;
+    }
+    for (unsigned i = 0, e = cells.size(); i < e; ++i) {
+      if (cells[i].is_removed() != o_cells[i].is_removed()) {
+        return false;
+      }
+    }
+    return true;
   }
   bool is_top() const { return empty(); }
   bool is_bottom() const { return false; }
